@@ -335,6 +335,15 @@ def replay_case(arg):
                             if not np.allclose(np.asarray(pw.values[c, d], dtype=float), expv, equal_nan=True):
                                 fail('ReadBack', 'pointwise', dict(chain=c, draw=d))
                                 break
+                if not fails:
+                    # the same dataset with its dimensions STORED in another order (draw, individual, chain -- the labels say
+                    # which is which): the same cells are selected
+                    ds_t = ds.transpose('draw', 'individual', 'chain') if 'individual' in ds.dims else ds.transpose('draw', 'chain')
+                    pw_t = chi.compute_pointwise_loglikelihood(lls[0], ds_t, individual=rec['uniqueids'][0], param_map=pmap)
+                    a_, b_ = np.asarray(pw.transpose('chain', 'draw', ...).values, dtype=float), \
+                        np.asarray(pw_t.transpose('chain', 'draw', ...).values, dtype=float)
+                    if a_.shape != b_.shape or not np.allclose(a_, b_, equal_nan=True):
+                        fail('ReadBack', 'pointwise_of_a_dataset_stored_in_another_dimension_order', None)
                 cnt['readbacks'] = 1
         except Exception as e:
             fail('ReadBack', type(e).__name__, repr(e))
